@@ -74,7 +74,8 @@ theorem C20_sort_direction_synonyms (rest : List Char) (e : Nat) (h : stop rest)
   exact ⟨rfl, rfl, rfl⟩
 
 /-- non-vacuity of `stop`: a blank, a bar, the end of the query -/
-example : stop [] ∧ stop " | limit 1".toList ∧ stop "|count".toList := by decide
+example : stop [] ∧ stop " | limit 1".toList ∧ stop "|count".toList := by
+  simp [stop, Text.stripPrefix?]
 
 /-- **Counterexample for the code before 96a22d2**: the long spellings were cut short after
 `asc` / `desc`, leaving `ending…` unparsed, for EVERY continuation. -/
@@ -108,14 +109,18 @@ theorem C20_pct_tag_synonyms (d : Char) (hd : d.isDigit = true) (rest : List Cha
     pctTag ("pct".toList ++ d :: rest) e = .ok () (d :: rest) e ∧
     pctTag ("percentile".toList ++ d :: rest) e = .ok () (d :: rest) e ∧
     pctTag ('p' :: d :: rest) e = .ok () (d :: rest) e := by
-  have hc : d ≠ 'c' := by intro h; subst h; simp at hd
-  have he : d ≠ 'e' := by intro h; subst h; simp at hd
-  refine ⟨?_, ?_, ?_⟩ <;> simp [pctTag, altL, alt, tag, Text.stripPrefix?, Res.castErr, hc, he]
+  have hc : ¬ ('c' = d) := by intro h; subst h; simp at hd
+  have he : ¬ ('e' = d) := by intro h; subst h; simp at hd
+  refine ⟨?_, ?_, ?_⟩ <;> simp [pctTag, altL, alt, tag, Text.stripPrefix?, hc, he]
+
+example : ∃ d : Char, d.isDigit = true := ⟨'7', by decide⟩
 
 /-- the value of a percentile literal does not depend on leading zeros (`p099` ≡ `p99`) -/
 theorem C20_pct_leading_zero (ds : List Char) : pctValue ('0' :: ds) = pctValue ds := by
-  simp [pctValue, Value.digitsToNat, Value.digitValue', List.foldl]
-  rfl
+  have h : Value.digitsToNat ('0' :: ds) = Value.digitsToNat ds := by
+    simp [Value.digitsToNat, Value.digitVal]
+  unfold pctValue
+  rw [h]
 
 /-! ### blanks around the `|` separators -/
 
@@ -176,7 +181,10 @@ theorem C20_explicit_default_name (f : AggFn) :
 def ans (q : String) : String := answer (parseQuery q)
 
 /-- both texts are accepted and parse to the same AST -/
-def sameAst (a b : String) : Bool := ans a == ans b && (ans a).startsWith "ACCEPT"
+def sameAst (a b : String) : Bool :=
+  match parseQuery a, parseQuery b with
+  | .accept q1, .accept q2 => showQuery q1 == showQuery q2
+  | _, _ => false
 
 def synonymPairs : List (String × String) :=
   [("* | json | avg(x)", "* | json | average(x)"),
